@@ -180,6 +180,7 @@ func runC19(a *A) {
 		}
 	})
 	a.Rule("ordtab/expansion-ceiling", 2, func() { a.ruleExpansionCeiling() })
+	a.Rule("flow/fresh-channel-per-iteration", 1, func() { a.ruleFreshChannelPerIteration() })
 	a.Rule("flow/count-before-strategy", 1, func() {
 		fn := a.Method("stream", "Stream", "Emit")
 		isInc := func(in ssa.Instruction) bool {
